@@ -448,6 +448,9 @@ func Run(cfg Config) int {
 			fmt.Println(l)
 		}
 	}
+	if totalObl(results) == 0 {
+		inconclusive = append(inconclusive, "vacuous: no obligation for this property in any entry")
+	}
 	if len(violations) > 0 {
 		exit = 1
 	} else if len(inconclusive) > 0 {
@@ -514,11 +517,11 @@ func runEntry(cfg Config, prog *symex.Program, e entryInfo, findings []Finding) 
 	}
 	timeout := 20000
 	maxPaths := 20000
-	budget := 10 * time.Minute
+	budget := 4 * time.Minute
 	if cfg.Tier == "thorough" {
 		timeout = 120000
 		maxPaths = 100000
-		budget = 40 * time.Minute
+		budget = 30 * time.Minute
 	}
 	router := smt.NewRouter(timeout)
 	router.Scope = e.Name + "!"
@@ -548,7 +551,13 @@ func runEntry(cfg Config, prog *symex.Program, e entryInfo, findings []Finding) 
 		}
 	}
 	seenUnsupp := map[string]bool{}
+	deadline := t0.Add(budget + budget/2)
+	timedOut := false
 	for _, p := range paths {
+		if time.Now().After(deadline) {
+			timedOut = true
+			break
+		}
 		res.Outcomes[p.Outcome]++
 		res.Steps += p.Steps
 		switch p.Outcome {
@@ -663,6 +672,9 @@ func runEntry(cfg Config, prog *symex.Program, e entryInfo, findings []Finding) 
 			res.pathSamples = append(res.pathSamples, fmt.Sprintf("path %d: %d pc conjuncts, %d effects, %d asserts", p.ID, len(p.PC), len(p.Effects), len(p.Asserts)))
 		}
 	}
+	if timedOut {
+		res.Inconcl = append(res.Inconcl, "time budget exhausted while discharging obligations")
+	}
 	// every assert label must have a reachable instance
 	labels := map[string]bool{}
 	for _, ob := range res.Obligations {
@@ -681,7 +693,8 @@ func runEntry(cfg Config, prog *symex.Program, e entryInfo, findings []Finding) 
 			}
 		}
 	}
-	if len(res.Obligations) == 0 && len(res.Unsupported) == 0 {
+	if len(res.Obligations) == 0 && len(res.Unsupported) == 0 && propOf(e.Name) == cfg.Property {
+		// (an entry that serves this property only through "zzverif:also" may have nothing to say about it)
 		res.Inconcl = append(res.Inconcl, "vacuous: entry produced no obligation")
 	}
 	res.Havoc = m.SortedHavoc()
